@@ -545,3 +545,65 @@ func (in *Interp) indexSeq(h, n []*Term) *Term {
 	}
 	return r
 }
+
+// ---- encoding/binary: recognise the bytes of a value written by PutUintN and read it back as
+// the original term (otherwise fall through to the real body). Pure term-level simplification.
+func init() {
+	for _, be := range []bool{true, false} {
+		for _, w := range []int{2, 4, 8} {
+			be, w := be, w
+			recv := "(encoding/binary.bigEndian)"
+			if !be {
+				recv = "(encoding/binary.littleEndian)"
+			}
+			name := fmt.Sprintf("%s.Uint%d", recv, w*8)
+			reg(name, func(in *Interp, caller *frame, fn *ssa.Function, a []Value) (Value, bool) {
+				s := a[1].(Slice)
+				if len(s.a) < w {
+					return nil, false // real body panics appropriately
+				}
+				var x *Term
+				for i := 0; i < w; i++ {
+					bt, ok := s.a[i].(*Term)
+					if !ok {
+						return nil, false
+					}
+					sh := uint64(8 * i)
+					if be {
+						sh = uint64(8 * (w - 1 - i))
+					}
+					src, k, ok := byteSource(bt)
+					if !ok || k != sh || int(src.T.W) != w*8 {
+						x = nil
+						break
+					}
+					if i == 0 {
+						x = src
+					} else if x != src {
+						x = nil
+						break
+					}
+				}
+				if x == nil {
+					return nil, false
+				}
+				return in.tb.Conv(x, Typ{KInt, uint8(w * 8), false}), true
+			})
+		}
+	}
+}
+
+// byteSource matches  byte(x >> k)  (k constant, possibly 0).
+func byteSource(b *Term) (x *Term, k uint64, ok bool) {
+	if b.Op != OpConv || b.T.W != 8 || b.A == nil {
+		return nil, 0, false
+	}
+	a := b.A
+	if a.Op == OpShr && a.B.IsConst() {
+		return a.A, a.B.V, true
+	}
+	if a.T.K == KInt {
+		return a, 0, true
+	}
+	return nil, 0, false
+}
